@@ -4658,11 +4658,11 @@ struct LoadOptionsRef<'a> {
 
 #[derive(Debug, Default)]
 struct PendingState<'a> {
-  deferred: HashMap<ModuleSpecifier, DeferredLoad>,
+  deferred: IndexMap<ModuleSpecifier, DeferredLoad>,
   pending: FuturesOrdered<PendingInfoFuture<'a>>,
   jsr: PendingJsrState,
   npm: PendingNpmState,
-  dynamic_branches: HashMap<ModuleSpecifier, PendingDynamicBranch>,
+  dynamic_branches: IndexMap<ModuleSpecifier, PendingDynamicBranch>,
 }
 
 #[derive(Debug, Clone, Copy, PartialEq, Eq)]
